@@ -361,6 +361,8 @@ type TypeOps struct {
 	// MakeSSRowHidden makes per-channel slices whose rows each have `extra`
 	// more elements of spare capacity behind them (nil rows stay nil); it
 	// returns the visible rows and, for inspection/filling, the full rows.
+	// MakeSSShared makes rows that are all prefixes of ONE backing array (returned too).
+	MakeSSShared func(lens []int, extra int) (SS, Sl)
 	MakeSSRowHidden func(lens []int, extra int) (SS, SS)
 	// MakeSlHidden makes a slice of n elements whose backing array has `extra`
 	// more elements behind it (spare capacity); it returns the visible slice
@@ -428,6 +430,20 @@ func mkOps[T signal.SignalTypes](name string, named bool, base int) *TypeOps {
 				}
 			}
 			return &gss[T]{s: s, ti: ti}
+		},
+		MakeSSShared: func(lens []int, extra int) (SS, Sl) {
+			longest := 0
+			for _, n := range lens {
+				longest = max(longest, n)
+			}
+			arr := make([]T, longest+extra)
+			rows := make([][]T, len(lens))
+			for i, n := range lens {
+				if n >= 0 {
+					rows[i] = arr[:n]
+				}
+			}
+			return &gss[T]{s: rows, ti: ti}, &gsl[T]{s: arr, ti: ti}
 		},
 		MakeSSRowHidden: func(lens []int, extra int) (SS, SS) {
 			vis := make([][]T, len(lens))
